@@ -1,7 +1,15 @@
 """C15 WideFifo behaves as a bounded queue with batched operations (spec: specs/lib/WideQueue.tla,
 exhaustive model specs/lib/WideQueueMC.tla)."""
+import json
+import multiprocessing as mp
+import os
+import random
+from collections import defaultdict, deque
+
 from vlib import tlc
-from vlib.comp import Component, MC_CFG, replay_edges, standard_check, replay_file
+from vlib.comp import Component, MC_CFG, _replay_task, standard_check, replay_file
+
+NPROCS = int(os.environ.get("VERIF_PROCS", "16"))
 
 DATA_W = 4
 
@@ -176,6 +184,103 @@ def model_check(rep, quick):
     return edges, inits
 
 
+def plan_walks(edges, inits, max_len, rng, tail=3):
+    """Edge-cover walks from the reset state (same greedy idea as vlib.comp.plan_walks, with the
+    state keys computed once per edge: the generic planner is quadratic on graphs of this size).
+    Returns [(cfg, [edge, ...])]; every edge is on at least one walk."""
+    key = lambda x: json.dumps(x, sort_keys=True)
+    init_of = {key(i["cfg"]): key(i["st"]) for i in inits}
+    by_cfg = defaultdict(list)
+    for e in edges:
+        by_cfg[key(e["cfg"])].append(e)
+    walks = []
+    for ck, es in by_cfg.items():
+        ids = {}
+        sid = lambda k: ids.setdefault(k, len(ids))
+        init = sid(init_of[ck])
+        src = [sid(key(e["from"])) for e in es]
+        dst = [sid(key(e["to"])) for e in es]
+        n = len(ids)
+        unc = [[] for _ in range(n)]          # uncovered outgoing edges per state
+        adj = [dict() for _ in range(n)]      # successor state -> one edge leading there
+        allout = [[] for _ in range(n)]
+        for i in range(len(es)):
+            unc[src[i]].append(i)
+            allout[src[i]].append(i)
+            adj[src[i]].setdefault(dst[i], i)
+        left = len(es)
+        while left:
+            cur, walk = init, []
+            while len(walk) < max_len and left:
+                if unc[cur]:
+                    # prefer an edge whose target still has uncovered edges (fewer detours)
+                    best = max(range(len(unc[cur])), key=lambda k: len(unc[dst[unc[cur][k]]]))
+                    i = unc[cur].pop(best)
+                    left -= 1
+                    walk.append(i)
+                    cur = dst[i]
+                    continue
+                prev = {cur: None}
+                dq = deque([cur])
+                found = None
+                while dq and found is None:
+                    s = dq.popleft()
+                    for t, j in adj[s].items():
+                        if t not in prev:
+                            prev[t] = (s, j)
+                            if unc[t]:
+                                found = t
+                                break
+                            dq.append(t)
+                if found is None:
+                    break
+                path = []
+                s = found
+                while prev[s] is not None:
+                    s, j = prev[s][0], prev[s][1]
+                    path.append(j)
+                path.reverse()
+                if walk and len(walk) + len(path) >= max_len:
+                    break
+                walk += path
+                cur = found
+            if not walk:
+                raise tlc.MachineryError(f"{left} model edges unreachable from the reset state")
+            for _ in range(tail):  # random continuation: the last target state is probed as well
+                if not allout[cur]:
+                    break
+                j = rng.choice(allout[cur])
+                walk.append(j)
+                cur = dst[j]
+            walks.append((json.loads(ck), [es[i] for i in walk]))
+    return walks
+
+
+def replay_edges(edges, inits, rep, max_len):
+    """vlib.comp.replay_edges with the planner above (same per-cycle comparison: replay_walk)."""
+    walks = plan_walks(edges, inits, max_len, random.Random(rep.seed))
+    covered = {id(e) for _, w in walks for e in w}
+    if any(id(e) not in covered for e in edges):
+        raise tlc.MachineryError("edge cover incomplete")
+    tasks = [(COMP.module, COMP.attr, cfg, walk) for cfg, walk in walks]
+    with mp.Pool(min(NPROCS, max(1, len(tasks)))) as pool:
+        results = pool.map(_replay_task, tasks, chunksize=1)
+    rep.add("edges_total", len(edges))
+    rep.add("edges_replayed_into_impl", len(edges))
+    rep.add("replay_walks", len(walks))
+    rep.add("replay_cycles", sum(len(w) for _, w in walks))
+    for cfg, bad, sched, err in results:
+        if err:
+            rep.violation({"component": COMP.name, "cfg": cfg, "clauses": ["ReplayException"], "what": err[-1500:]})
+        for b in bad:
+            rep.violation({"component": COMP.name, "cfg": cfg, "clauses": ["EdgeReplay"],
+                           "what": "; ".join(b["problems"]), "schedule": sched[: b["step"] + 1],
+                           "model_from": b["from"], "model_label": b["lab"], "observed": b["line"]})
+    if walks:
+        rep.sample({"kind": "edge-walk", "cfg": walks[0][0],
+                    "labels": [w["lab"]["calls"] for w in walks[0][1][:6]]})
+
+
 def situations(traces):
     seen = set()
     keys = ["read_write_same_cycle", "clear_with_write", "write_refused_full", "write_refused_not_fitting",
@@ -247,11 +352,10 @@ def all_cfgs():
 
 
 def run(rep):
-    import random
     thorough = rep.tier == "thorough"
     edges, inits = model_check(rep, quick=not thorough)
     if edges:
-        replay_edges(COMP, edges, inits, rep, rep.pid, max_len=60)
+        replay_edges(edges, inits, rep, max_len=1000)
     cfgs = all_cfgs()
     rep.coverage["configs_total"] = len(cfgs)
     if not thorough:
